@@ -112,7 +112,11 @@ func TestDriveC17(t *testing.T) {
 				for _, ch := range chips {
 					if len(ch.fans) > 0 {
 						good := configuration.HwMonFanConfig{Platform: ch.name, Index: 1}
-						cc.Fans = append([]configuration.FanConfig{{ID: "c17good", Curve: "c17c", HwMon: &good}}, cc.Fans...)
+						if r.Intn(2) == 0 {
+							cc.Fans = append([]configuration.FanConfig{{ID: "c17good", Curve: "c17c", HwMon: &good}}, cc.Fans...)
+						} else { // ... or after it: a later entry that binds must not make up for this one
+							cc.Fans = append(cc.Fans, configuration.FanConfig{ID: "c17good", Curve: "c17c", HwMon: &good})
+						}
 						break
 					}
 				}
@@ -129,7 +133,11 @@ func TestDriveC17(t *testing.T) {
 				for _, ch := range chips {
 					if len(ch.temps) > 0 {
 						good := configuration.HwMonSensorConfig{Platform: ch.name, Index: 1}
-						cc.Sensors = append([]configuration.SensorConfig{{ID: "c17good", HwMon: &good}}, cc.Sensors...)
+						if r.Intn(2) == 0 {
+							cc.Sensors = append([]configuration.SensorConfig{{ID: "c17good", HwMon: &good}}, cc.Sensors...)
+						} else {
+							cc.Sensors = append(cc.Sensors, configuration.SensorConfig{ID: "c17good", HwMon: &good})
+						}
 						break
 					}
 				}
